@@ -42,10 +42,10 @@ def fills(seed):
 HIST = ['runtime', 'sensor:first', 'dev:battery-off', 'dev:battery-on', 'dev:refuse-mppt', 'dev:accept-mppt',
         'dev:refuse-battery2', 'dev:refuse-meter-ext2', 'dev:refuse-meter-ext', 'settings:colliding', 'sensor:all',
         'dev:refuse-battery', 'dev:accept-all', 'devq:refuse-battery', 'devq:accept-all',
-        'devq:regs=zero', 'devq:regs=ffff', 'devq:regs=other']
+        'devq:regs=zero', 'devq:regs=ffff', 'devq:regs=other', 'dev:regs=healthy', 'dev:regs=zero']
 # (devq: = the device changes and NO runtime read follows: the next call of the history is the first to notice)
 HIST_DT = ['runtime', 'sensor:first', 'sensor:all', 'settings:colliding', 'dev:refuse-meter', 'dev:accept-all',
-           'devq:refuse-meter', 'devq:accept-all', 'devq:regs=zero', 'devq:regs=ffff', 'devq:regs=other']
+           'devq:refuse-meter', 'devq:accept-all', 'devq:regs=zero', 'devq:regs=ffff', 'devq:regs=other', 'dev:regs=healthy', 'dev:regs=zero']
 
 
 def apply(r, cfg, name):
@@ -85,7 +85,8 @@ def apply(r, cfg, name):
     elif name.startswith('dev:regs='):
         # the measured values change (night: counters and powers read 0 / 'no value'; another day: other values)
         what = name.split('=')[1]
-        dev.rf.fill = {'zero': (lambda a: 0), 'ffff': (lambda a: 0xFFFF), 'other': (lambda a: (a * 7919 + 13) & 0x7FFF)}[what]
+        from .c11_settings import _healthy      # (a valid inverter clock, small values elsewhere: everything decodes)
+        dev.rf.fill = {'zero': (lambda a: 0), 'ffff': (lambda a: 0xFFFF), 'other': (lambda a: (a * 7919 + 13) & 0x7FFF), 'healthy': _healthy}[what]
         dev.fill_name = what
     elif name == 'dev:accept-all':
         dev.refused = []           # the hardware is there now (battery commissioned, meter connected)
